@@ -431,6 +431,22 @@ func judgeLifecycles(seq []fasthttp.ConnState) []finding {
 	return out
 }
 
+func interleavedCompleteLifecycles(seq []fasthttp.ConnState) bool {
+	news, terms := 0, 0
+	for _, st := range seq {
+		switch st {
+		case fasthttp.StateNew:
+			news++
+		case fasthttp.StateClosed, fasthttp.StateHijacked:
+			terms++
+			if terms > news {
+				return false
+			}
+		}
+	}
+	return news == terms && news > 1
+}
+
 func runCase(r *mon.Run, i int) {
 	rnd := r.Rand("case", i)
 	cfg := caseCfg{Mode: "ServeConn", RMU: rnd.Intn(2) == 0, ReadTimeout: rnd.Intn(3) == 0, IdleTimeout: rnd.Intn(4) == 0}
@@ -582,7 +598,10 @@ func runCase(r *mon.Run, i int) {
 	case cfg.Mode == "ServeConn" && !cfg.Reject:
 		for _, rec := range recs {
 			serve(rec)
-			if rec.hijacked.Load() {
+			rec.mu.Lock()
+			hj := len(rec.seq) > 0 && rec.seq[len(rec.seq)-1].St == fasthttp.StateHijacked
+			rec.mu.Unlock()
+			if hj {
 				waitFor(rec.hjDone, termWait) // sequential connections: the hijack handler releases the conn first
 			}
 		}
@@ -780,7 +799,14 @@ func runCase(r *mon.Run, i int) {
 			for _, st := range seq {
 				names = append(names, stName(st))
 			}
-			for _, f := range judgeLifecycles(seq) {
+			fs := judgeLifecycles(seq)
+			if len(fs) > 0 && interleavedCompleteLifecycles(seq) {
+				// as many terminal states as StateNew, never more terminals than News so far: two complete lifecycles
+				// overlap on one value, i.e. the terminal state of the earlier connection was reported after the
+				// wrapper had been recycled for the next connection
+				fs = []finding{{"perip-closed-reported-on-recycled-wrapper", "the terminal state of one connection was reported on this value after the (pooled) value had already been handed out again and reported StateNew for the next connection"}}
+			}
+			for _, f := range fs {
 				r.Violation(i, f.key, fmt.Sprintf("%s MaxConnsPerIP=%d rmu=%v: conn value #%d (%T) handed to the hook: %s; calls on this value: [%s]; per-connection traces: %v", cfg.Mode, cfg.MaxConnsPerIP, cfg.RMU, vi, v, f.what, strings.Join(names, " "), traces),
 					map[string]any{"config": cfg, "value_calls": names})
 			}
@@ -814,7 +840,11 @@ func TestC14(t *testing.T) {
 		if !r.Want(i) {
 			return
 		}
+		t0 := time.Now()
 		runCase(r, i)
+		if d := time.Since(t0); d > 2*time.Second && os.Getenv("C14_DEBUG") != "" {
+			fmt.Printf("SLOWCASE %d %v\n", i, d)
+		}
 	})
 	if !r.Replaying() {
 		r.Require("connections_judged", n)
